@@ -142,7 +142,7 @@ class Encoder:
         self.bits: typing.List[int] = []
         self.nan_regions: typing.List[typing.Tuple[int, int]] = []
         self.field_starts: typing.List[typing.Tuple[typing.Tuple[typing.Any, ...], int]] = []  # (path, start bit)
-        self.origin = 0  # bit position of the outermost object (for nested temp encoders)
+        self.unaligned_wide = 0  # primitives of >= 8 bits that start at a bit offset that is not a multiple of 8
 
     def put(self, value: int, width: int) -> None:
         for i in range(width):
@@ -154,6 +154,8 @@ class Encoder:
 
     def encode(self, spec: typing.Any, v: typing.Any, path: typing.Tuple[typing.Any, ...] = ()) -> None:
         k = spec[0]
+        if k in ("uint", "int", "float", "byte", "utf8") and layout.width(spec) >= 8 and len(self.bits) % 8:
+            self.unaligned_wide += 1
         if k == "bool":
             if not isinstance(v, (bool, int)):
                 raise BadValue("bool %r" % (v,))
@@ -224,6 +226,7 @@ class Encoder:
             base = len(self.bits)
             self.nan_regions.extend((s + base, w) for s, w in inner.nan_regions)
             self.field_starts.extend((p, s + base) for p, s in inner.field_starts)
+            self.unaligned_wide += inner.unaligned_wide
             self.bits.extend(inner.bits)
         else:
             raise ValueError(spec)
